@@ -440,6 +440,10 @@ def produce_lines_miri(group, seed, timeout=3000, mode="miri", sections=None):
     out_path = os.path.join(BUILD, "lines_%s_miri_%d.tsv" % (group, os.getpid()))
     env = env_base()
     env["CARGO_TARGET_DIR"] = os.path.join(BUILD, "target_miri")
+    # the layout of a repr(Rust) struct is unspecified: build konst and the harness with randomised
+    # field orders, so that code which relies on two distinct structs having the same layout
+    # (a transmute between an iterator and its reversed twin, say) shows under Miri
+    env["RUSTFLAGS"] = (env.get("RUSTFLAGS", "") + " -Zrandomize-layout -Zlayout-seed=%d" % (int(seed) % 1000 + 1)).strip()
     with Lock("cargo.lock"):
         link_repo()
         with open(out_path, "w") as f:
